@@ -2653,6 +2653,7 @@ func (s *Server) serveConnCounted(c net.Conn, countConcurrency bool) error {
 		// handler may still be using the old one.
 		isHead := ctx.IsHead()
 		isHTTP11 := ctx.Request.Header.IsHTTP11()
+		_, streamedBody := ctx.Request.bodyStream.(*requestStream)
 
 		// If a client denies a request the handler should not be called
 		if continueReadingRequest {
@@ -2664,6 +2665,17 @@ func (s *Server) serveConnCounted(c net.Conn, countConcurrency bool) error {
 			// Acquire a new ctx because the old one will still be in use by the timeout out handler.
 			ctx = s.acquireCtx(c)
 			timeoutResponse.CopyTo(&ctx.Response)
+			if streamedBody {
+				// The timed out handler still owns the body stream and may be
+				// reading the connection through it: nothing else can be read
+				// from this connection any more.
+				connectionClose = true
+			}
+		} else if streamedBody && ctx.Request.bodyStreamUnread() {
+			// The handler left part of the streamed request body unread. Those
+			// bytes are still on the connection and must not be parsed as the
+			// next request: close the connection after this response.
+			connectionClose = true
 		}
 
 		if isHead {
